@@ -72,7 +72,7 @@ def gen_workload(rng: Rng) -> dict:
     meta: dict[str, dict] = {}
     enc_pool = ["ascii", "utf-8", "utf-8", "utf-8-sig", "utf-16-le-bom", "utf-16-be-bom", "cp1252"]
     cfg_enc = rng.choice(["autodetect", "autodetect", "autodetect", "explicit"])
-    big = rng.chance(0.12)
+    big = rng.chance(0.2)
     if big:
         n = 1
     for i in range(n):
